@@ -24,11 +24,28 @@ def _num(v):
 class Vals:
     """Source of input values: fresh symbols (symbolic run) or numbers from an assignment."""
 
+    # "views": arrays are handed out as views that are NOT C-contiguous (1-D: every second entry of a longer buffer,
+    # 2-D: the transpose of a row-major buffer) - the same values in another memory layout; set per item (cfg["mem_layout"])
+    default_layout = None
+
     def __init__(self, c=None, env=None):
         self.c = c
         self.env = env
         self.symbolic = env is None
         self.requested = []
+        self.layout = Vals.default_layout
+
+    def _laid_out(self, a):
+        if self.layout != "views" or a.ndim not in (1, 2) or a.size == 0:
+            return a
+        if a.ndim == 1:
+            base = np.zeros((a.shape[0], 2), dtype=a.dtype)
+            base[:, 0] = a
+            v = base[:, 0]
+        else:
+            base = np.array(np.asarray(a).T, order="C")
+            v = base.T
+        return v
 
     def real(self, name, positive=False, nonzero=False, lo=None, hi=None, default=None):
         self.requested.append(name)
@@ -49,6 +66,7 @@ class Vals:
             a = np.empty(shape, dtype=float)
         for idx in np.ndindex(*shape):
             a[idx] = self.real(name + "_" + "_".join(str(i) for i in idx), **kw)
+        a = self._laid_out(a)
         return a.view(SymArray) if self.symbolic else a
 
     def cplx(self, name):
@@ -62,6 +80,7 @@ class Vals:
         a = np.empty(shape, dtype=object if self.symbolic else complex)
         for idx in np.ndindex(*shape):
             a[idx] = self.cplx(name + "_" + "_".join(str(i) for i in idx))
+        a = self._laid_out(a)
         return a.view(SymArray) if self.symbolic else a
 
     def const(self, x):
@@ -202,6 +221,7 @@ def symbolic_run(scenario, cfg, tier, *, max_paths=400, obl_timeout_ms=None, val
     if obl_timeout_ms is None:
         obl_timeout_ms = 10000 if tier == "quick" else 60000
     t_start = time.time()
+    Vals.default_layout = cfg.get("mem_layout")   # (forked worker: one item per process)
     c = Ctx(feas_timeout_ms=feas_timeout_ms, name=str(cfg.get("id", "")))
     out = ItemResult(item=cfg.get("id"), kind=cfg.get("kind"), cfg=_jsonable(cfg), obligations=[], paths=0,
                      aborted=0, exceptions=[], errors=[], notes=[], samples=[], validated=0,
